@@ -22,6 +22,7 @@ import re
 import stat
 
 import cli
+import places
 from core import enc, enc_list
 
 # ----------------------------------------------------------------------------
@@ -577,7 +578,7 @@ def canon_json(root, code, rep):
 
 
 def run_lint_json(case, mp=False):
-    with cli.scratch("rv-rep-") as root:
+    with places.project_dir(case, "rv-rep-") as root:
         build_tree(root, case)
         args = ["lint", "--json"] if mp else ["--no-multiprocessing", "lint", "--json"]
         code, out, exc = cli.run_cli(args, root)
@@ -1061,7 +1062,7 @@ def dup_free(case):
     return True
 
 
-def tree_cases(tier, rng):
+def _tree_cases(tier, rng):
     n = {"quick": 60, "thorough": 600}[tier]
     for i in range(n):
         yield defect_case(rng, [])
@@ -1070,6 +1071,15 @@ def tree_cases(tier, rng):
             yield defect_case(rng, [k])
     for i in range({"quick": 150, "thorough": 1500}[tier]):
         yield defect_case(rng, [rng.choice(DEFECTS) for _ in range(rng.randint(2, 5))])
+
+
+def tree_cases(tier, rng):
+    """... one project in four lives in a directory with an unusual name, next to a look-alike neighbour (places.py)"""
+    for case in _tree_cases(tier, rng):
+        name = places.choose(rng)
+        if name:
+            case["root"] = name
+        yield case
 
 
 # ----------------------------------------------------------------------------
